@@ -86,8 +86,9 @@ Plan generate_plan(const std::string &prop, const std::string &tier, uint64_t ba
         p.cfg.set("nops", (long)ops.size());
         p.clients.push_back(ops);
     } else if (p.mode == "threads") {
-        int nt = r.pick(std::vector<int>{2, 2, 2, 3, 3, 4});
-        int budget = 20;
+        bool deep = tier == "thorough";
+        int nt = deep ? r.pick(std::vector<int>{2, 3, 3, 4, 4, 5}) : r.pick(std::vector<int>{2, 2, 2, 3, 3, 4});
+        int budget = deep ? 28 : 20;      // total operations; the linearizability checker takes at most 31
         // a short sequential prefix by client 0 fills the container a little
         for (int c = 0; c < nt; c++) {
             int n = r.range(1, std::min(6, std::max(1, budget / nt)));
